@@ -505,7 +505,7 @@ group list; (b) the history contains an allowed and a denied/unknown answer, or 
     // KanidmProvider::new calibrates Argon2 for ~0.25 s of wall time per provider, so the
     // configurations are spread over worker threads; each configuration has its own forked
     // PRNG, so the cases do not depend on the scheduling.
-    let n_cfg: usize = if args.thorough { 1800 } else { 240 };
+    let n_cfg: usize = if args.thorough { 900 } else { 240 };
     let n_workers: usize = 12;
     let seeds: Vec<Rng> = (0..n_cfg).map(|_| rng.fork()).collect();
     let mut handles = vec![];
